@@ -118,6 +118,8 @@ class State:
         self.spec = 0           # >0 while evaluating a specification expression
         self.old = None         # entry state, for old(...)
         self.bound = []         # stack of bound-variable frames (quantifier bodies)
+        self.qvars = []         # z3 constants bound by enclosing quantifiers/comprehensions
+        self.bmarks = []        # indices into pc that are branch decisions (the rest are assumed facts)
 
     def copy(self):
         s = State.__new__(State)
@@ -133,6 +135,8 @@ class State:
         s.spec = self.spec
         s.old = self.old
         s.bound = list(self.bound)
+        s.bmarks = list(self.bmarks)
+        s.qvars = list(self.qvars)
         return s
 
     def assume(self, c):
